@@ -193,6 +193,11 @@ package syncx
 //@   ensures implies(err == nil, inDom(manager.resources, key) && manager.resources[key] == val)
 //@   ensures implies(err != nil, val == nil && calls(create) == old(calls(create)) + 1 && err == ret(create, 1))
 //@   ensures implies(calls(create) == old(calls(create)) + 1 && err == nil, val == ret(create, 0))
+// the look-up happens INSIDE the flight (under the read lock): a key that is present when the flight runs is never created again
+// - a look-up before entering the flight would let a second first caller, overtaken by the first, create a second resource
+//@   ghost at entry: c0 = calls(create)
+//@   ghost at after RLock#0: had = inDom(manager.resources, key)
+//@   ensures_local implies(had, calls(create) == c0)
 //@ func (manager *ResourceManager) Inject
 //@   property C07
 //@   ensures inDom(manager.resources, key) && manager.resources[key] == resource
